@@ -101,6 +101,11 @@ struct Process {              // a simulated child (babysitter + grandchild)
   int status = 0;             // wait status
   bool killed = false;
   int kill_sig = 0;
+  // the babysitter's two channels to its parent, known once proc_settle() has run
+  End *sock = nullptr;        // babysitter end of the socketpair (CHILD_PID / CHILD_EXITED go here)
+  End *errpipe = nullptr;     // write end of the exec-error pipe (closed by a successful exec)
+  bool settled = false;
+  bool reported = false;      // CHILD_PID has been written (the real babysitter does that at once)
 };
 
 class Kernel {
@@ -153,6 +158,13 @@ class Kernel {
   // ---- processes
   std::vector<Process *> procs;
   Process *proc_by_pid(int pid);
+  std::vector<std::string> next_spawn_argv;   // argv of the spawn in progress (recorded by the spawn wrapper, taken by fork)
+  // the scripted babysitter + service process (what dbus-spawn-unix.c's child side would do)
+  void proc_settle(Process *p);               // the child closes its copies of the parent's descriptors
+  void proc_exec_ok(Process *p);              // grandchild exec()ed: error pipe closes, CHILD_PID is reported
+  void proc_exit(Process *p, int wait_status);// grandchild exited: CHILD_EXITED + status, babysitter exits
+  void proc_exec_failed(Process *p, int err); // exec failed: CHILD_EXEC_FAILED + errno on the error pipe, then exit status 1
+  void proc_die(Process *p);                  // killed: everything closes, nothing is reported
   int next_pid = 30000;
   bool fork_fails = false;
 
